@@ -32,6 +32,9 @@ type Run struct {
 	// Quiet marks the sections in which the harness itself (oracle pipelines)
 	// runs controller code: no faults, no scheduling points, no permutation.
 	Quiet bool
+	// QuietOrder keeps map permutation on inside a Quiet section (C06: fresh
+	// pipelines that differ in processing order only).
+	QuietOrder bool
 	// Crashed makes every seam fail: the controller generation that is still
 	// running can no longer touch the outside world.
 	Crashed bool
@@ -261,7 +264,7 @@ func Range[M ~map[K]V, K comparable, V any](site string, m M) iter.Seq2[K, V] {
 			keys = append(keys, k)
 		}
 		sortKeys(keys)
-		if r := Cur(); r != nil && r.MapOrder && !r.Quiet && len(keys) > 1 {
+		if r := Cur(); r != nil && (r.MapOrder && !r.Quiet || r.QuietOrder) && len(keys) > 1 {
 			sub := r.Tape.Choose("map:"+site, 1<<30)
 			if sub != 0 {
 				rng := rand.New(rand.NewPCG(uint64(sub), 0x5851f42d4c957f2d))
